@@ -152,14 +152,14 @@ theorem header_refusal_no_touch (a : Args) (w : World) (o : Oracle) (hv : a.vers
   exact ⟨rfl, rfl, rfl, fun _ => rfl⟩
 
 /-- The payload fails after `n` bytes of plaintext: the exit status is not 0,
-    standard output received a prefix of the true plaintext, and every path
-    either is what it was or is a regular file holding a prefix of the true
-    plaintext. -/
+    standard output received a prefix of the `n` bytes of true plaintext released
+    before the failure (nothing past them, nothing else), and every path either is
+    what it was or is a regular file holding a prefix of those `n` bytes. -/
 theorem payload_failure_prefix (a : Args) (w : World) (o : Oracle) (pt : Bytes) (n : Nat)
     (hv : a.version = false) (hop : operation a w o = .ok (.dec (.ok pt (some n)))) :
-    (run a w o).exit ≠ 0 ∧ (run a w o).stdout <+: pt ∧
+    (run a w o).exit ≠ 0 ∧ (run a w o).stdout <+: pt.take n ∧
       ∀ u, (run a w o).world.get u = w.get u ∨
-        ∃ c m, (run a w o).world.get u = .file c m ∧ c <+: pt := by
+        ∃ c m, (run a w o).world.get u = .file c m ∧ c <+: pt.take n := by
   unfold run
   cases hn : a.noArgs with
   | true => exact ⟨by simp, List.nil_prefix, fun _ => Or.inl rfl⟩
